@@ -435,3 +435,93 @@ def t_type_text(facts, res, tier):
                                      "%s compares source text with the spelling %r: with a tab, two blanks, a newline or a comment between the words the text differs and the "
                                      "construct is silently taken for something else (or rejected)" % (fn["name"], lit["v"]))
     res.inst("T-TYPE-TEXT:scan", True, {"sites": n_sites})
+
+
+# ----------------------------------------------------------------------------- C01 (a value returned in the accumulator is claimed)
+
+
+@rule("T-ACC-CLAIM", floor=6,
+      text="a generator function that hands back `ExprType::A(..)` - a value living in the accumulator - leaves `acc_in_use` true on that path, "
+           "so that whatever is evaluated next saves the accumulator before using it.  (All producers do; a sibling that does not lets "
+           "`f() + g()` overwrite f's result with g's.)")
+def t_acc_claim(facts, res, tier):
+    import genmodel
+    from walker import EnumV, Const
+    per_fn = {}
+    for fn in genmodel.gen_fns(facts):
+        if fn["name"] == "new":
+            continue
+        try:
+            paths = genmodel.fn_paths(facts, fn)
+        except Exception:
+            continue
+        for kind, val, st in paths:
+            if genmodel.is_error_exit(val):
+                continue
+            v = val
+            if isinstance(v, EnumV) and v.enum == "Result" and v.variant == "Ok" and v.payload:
+                v = v.payload[0]
+            if not (isinstance(v, EnumV) and v.enum == "ExprType" and v.variant == "A"):
+                continue
+            cur = st.env.get("self.acc_in_use")
+            if isinstance(cur, Const):
+                know = {cur.v}
+            else:
+                kk = "self.acc_in_use@%d" % st.notes.get("ep:acc_in_use", 0)
+                a, e = st.cons.get(kk, (None, frozenset()))
+                know = set(a) if a is not None else ({True, False} - set(e))
+            d = per_fn.setdefault(fn["name"], {"fn": fn, "claimed": 0, "unclaimed": 0})
+            if know == {True}:
+                d["claimed"] += 1
+            else:
+                d["unclaimed"] += 1
+    for name, d in sorted(per_fn.items()):
+        key = "T-ACC-CLAIM:%s" % name
+        res.inst(key, True, {"paths_returning_A": d["claimed"] + d["unclaimed"], "claimed": d["claimed"]})
+        if d["unclaimed"]:
+            res.fail(key, facts.where(d["fn"]),
+                     "%s returns ExprType::A on %d path(s) without `acc_in_use` being true: the next evaluation does not save the accumulator and overwrites the "
+                     "value (`r = f() + g();` emitted JSR f / JSR g / STA cctmp / ADC cctmp, i.e. 2*g())" % (name, d["unclaimed"]))
+
+
+# ----------------------------------------------------------------------------- C01 (Y as a value while Y serves as an index)
+
+TWO_OPERAND = ("generate_assign", "generate_arithm", "generate_shift", "generate_condition_ex")
+
+
+@rule("T-SAVED-Y-VALUE", floor=4,
+      text="when an indexed operand needs Y as its index, the program's Y is parked in cctmp (`saved_y`) and Y holds the index until the end of "
+           "the statement.  The functions that combine two evaluated operands therefore read Y *as a value* (TYA, STY, CPY) only where "
+           "`saved_y` is known to be false (they reject otherwise): `arr[i] = Y` must not store the index")
+def t_saved_y_value(facts, res, tier):
+    import genmodel
+    seen = {}
+    for name in TWO_OPERAND:
+        fn = facts.fn(name, genmodel.GEN_QUAL)
+        for kind, val, st in genmodel.fn_paths(facts, fn):
+            if genmodel.is_error_exit(val):
+                continue
+            for ev in st.events:
+                if ev["kind"] not in ("asm", "sasm", "sasm_protected"):
+                    continue
+                m = genmodel.domain_of(st, ev["args"][0], facts, universe=facts.enum_variants("AsmMnemonic"))
+                if not (m and m <= {"TYA", "STY", "CPY"}):
+                    continue
+                key = "T-SAVED-Y-VALUE:%s:%s" % (name, "/".join(sorted(m)))
+                d = seen.setdefault(key, {"fn": fn, "ok": 0, "bad": None})
+                know = ev.get("know", {}).get("saved_y")
+                if know != {False}:
+                    kk = "self.saved_y@%d" % ev.get("ver", {}).get("saved_y", 0)
+                    a, e = st.cons.get(kk, (None, frozenset()))
+                    if a is not None and set(a) == {False}:
+                        know = {False}
+                if know == {False}:
+                    d["ok"] += 1
+                elif d["bad"] is None:
+                    d["bad"] = ev
+    for key, d in sorted(seen.items()):
+        res.inst(key, True, {"guarded_paths": d["ok"]})
+        if d["bad"] is not None:
+            res.fail(key, facts.where(d["fn"], d["bad"]["node"]),
+                     "%s reads Y as a value (%s) on a path where `saved_y` is not known to be false: when the other operand is indexed through Y the "
+                     "register holds the index, not the program's Y" % (d["fn"]["name"], key.split(":")[-1]))
